@@ -116,22 +116,27 @@ class GeometricMTF(SpotDiagram):
         mtf = []  # TODO: add option for polychromatic MTF
         for field_data in self.data:
             xi, yi = field_data[0][0], field_data[0][1]
-            mtf.append([self._compute_field_data(yi, self.freq, scale_factor),
-                        self._compute_field_data(xi, self.freq, scale_factor)])
+            # line spread of the light that reaches the image: rays are weighted
+            # by their intensity (clipped / vignetted rays carry none)
+            wi = field_data[0][2]
+            mtf.append([self._compute_field_data(yi, self.freq, scale_factor, wi),
+                        self._compute_field_data(xi, self.freq, scale_factor, wi)])
         return mtf, scale_factor
 
-    def _compute_field_data(self, xi, v, scale_factor):
+    def _compute_field_data(self, xi, v, scale_factor, weights=None):
         """Computes the MTF data for a given field point.
 
         Args:
             xi (ndarray): The coordinate values (x or y) of the field point.
             v (ndarray): The frequency values for the MTF curve.
             scale_factor (float): The scale factor for the MTF curve.
+            weights (ndarray, optional): The intensity of each ray. Defaults
+                to None (all rays count equally).
 
         Returns:
             ndarray: The MTF data for the field point.
         """
-        A, edges = np.histogram(xi, bins=self.num_points+1)
+        A, edges = np.histogram(xi, bins=self.num_points+1, weights=weights)
         x = (edges[1:] + edges[:-1]) / 2
         dx = x[1] - x[0]
 
